@@ -1351,7 +1351,8 @@ Fixpoint child_changed (fuel : nat) (p child : nid) (ci : Z) (old : option val) 
                       | None => ret true
                       | Some o => r <- should_cutoff p (n_cutoff px) o self_new ;; ret (negb r)
                       end ;;
-        upd_node p (fun x => x <| n_mapref_did_change := did_change |>) ;;;
+        (* never lowers a raised flag: the node may be stale for an older reason *)
+        upd_node p (fun x => x <| n_mapref_did_change := n_mapref_did_change x || did_change |>) ;;;
         px <- get_node p ;;
         forM_ (indexed (n_parents px)) (fun ipp =>
           ppx <- get_node ipp.2 ;;
@@ -1488,7 +1489,8 @@ Definition recompute_body (fuel : nat) (n : nid) : M (option nid) :=
       vr <- get_var v ;; maybe_change_value fuel n (v_value vr)
   | Some (KConst v) => maybe_change_value fuel n v
   | Some (KMapRef _ _) =>
-      upd_node n (fun x => x <| n_value := None |>) ;;;
+      (* the flag is consumed: did_change.replace(false) *)
+      upd_node n (fun x => x <| n_value := None |> <| n_mapref_did_change := false |>) ;;;
       maybe_change_value_manual fuel n None (n_mapref_did_change x) false
   | Some (KMapWithOld f c) =>
       input <- unwrap_value c 341 ;;
